@@ -77,12 +77,27 @@ imp_id (const void *p)
     return 0;
 }
 
+/* sources shared by all threads: created and used once by the main thread before any worker starts */
+#define NSHARED 3
+static pixman_image_t *shared_img[NSHARED + 1];
+
 static void
 sink (const char *event, const void *data)
 {
     FILE *o = tout ? tout : vt_out;
     if (!o)
 	return;
+    if (!strcmp (event, "Ref") || !strcmp (event, "Unref"))
+    {
+	/* reference-count changes are reported for the shared images only (each is a write to the image) */
+	const pixman_verif_ref_t *e = data;
+	int i;
+	for (i = 1; i <= NSHARED; i++)
+	    if (shared_img[i] && e->image == (const void *)shared_img[i])
+		fprintf (o, "{\"e\":\"RefShared\",\"tid\":%d,\"seq\":%d,\"img\":[%u,%u,%u],\"what\":\"%s\"}\n",
+			 tid, seqno++, P3 (e->image), event);
+	return;
+    }
     if (!strcmp (event, "Lookup"))
     {
 	const pixman_verif_lookup_t *e = data;
@@ -237,9 +252,6 @@ log_buffer (FILE *o, const img_t *d)
     free (copy);
 }
 
-/* sources shared by all threads: created and used once by the main thread before any worker starts */
-#define NSHARED 3
-static pixman_image_t *shared_img[NSHARED + 1];
 static uint32_t shared_bits[16 * 8];
 
 static void
@@ -277,6 +289,28 @@ make_shared (int first_use)
     fflush (vt_out);
 }
 
+static uint32_t
+plain_read (const void *p, int size)
+{
+    switch (size)
+    {
+    case 1: return *(const uint8_t *)p;
+    case 2: return *(const uint16_t *)p;
+    default: return *(const uint32_t *)p;
+    }
+}
+
+static void
+plain_write (void *p, uint32_t v, int size)
+{
+    switch (size)
+    {
+    case 1: *(uint8_t *)p = (uint8_t)v; break;
+    case 2: *(uint16_t *)p = (uint16_t)v; break;
+    default: *(uint32_t *)p = v; break;
+    }
+}
+
 static void
 run_request (int idx)
 {
@@ -295,7 +329,7 @@ run_request (int idx)
 	int sw = (int)f[k++], sh = (int)f[k++], srep = (int)f[k++], sfilt = (int)f[k++];
 	pixman_fixed_t t[6];
 	pixman_format_code_t mfmt, dfmt;
-	int mw, mh, mrep, mca, dw, dh, sx, sy, mx, my, dx, dy, w, h, sopaque, i, shared;
+	int mw, mh, mrep, mca, dw, dh, sx, sy, mx, my, dx, dy, w, h, sopaque, i, shared, acc;
 	uint64_t seed;
 	for (i = 0; i < 6; i++)
 	    t[i] = (pixman_fixed_t)f[k++];
@@ -304,6 +338,7 @@ run_request (int idx)
 	sx = (int)f[k++]; sy = (int)f[k++]; mx = (int)f[k++]; my = (int)f[k++]; dx = (int)f[k++]; dy = (int)f[k++];
 	w = (int)f[k++]; h = (int)f[k++]; seed = (uint64_t)f[k++]; sopaque = (int)f[k++];
 	shared = (r->nf > k) ? (int)f[k++] : 0;
+	acc = (r->nf > k) ? (int)f[k++] : 0;
 	vrng_seed (&rng, seed);
 	memset (&s, 0, sizeof s); memset (&m, 0, sizeof m);
 	if (shared >= 1 && shared <= NSHARED && shared_img[shared])
@@ -349,6 +384,10 @@ run_request (int idx)
 	if (mask && mca)
 	    pixman_image_set_component_alpha (mask, 1);
 	make_bits (&d, dfmt, dw, dh, (int)vrng_below (&rng, 2), &rng, 0);
+	/* acc: plain read/write accessors on thread-private images (1 destination, 2 mask, 4 private source) */
+	if (acc & 1) pixman_image_set_accessors (d.img, plain_read, plain_write);
+	if ((acc & 2) && m.img) pixman_image_set_accessors (m.img, plain_read, plain_write);
+	if ((acc & 4) && s.img) pixman_image_set_accessors (s.img, plain_read, plain_write);
 	pixman_image_composite32 ((pixman_op_t)op, src, mask, d.img, sx, sy, mx, my, dx, dy, w, h);
 	fprintf (o, "{\"e\":\"Res\",\"tid\":%d,\"seq\":%d,\"req\":%d,\"kind\":\"C\",\"ret\":true", tid, seqno++, idx);
 	log_buffer (o, &d);
